@@ -34,7 +34,10 @@ def build_traj(case):
     xyz = (np.array(case["xyz"], dtype=np.float64) / unit).astype(np.float32)
     assert np.array_equal(xyz.astype(np.float64) * unit, np.array(case["xyz"], dtype=np.float64)), "inexact coordinates"
     t = md.Trajectory(xyz, top)
-    if case.get("box") is not None:
+    if isinstance(case.get("box"), dict):
+        v = np.array(case["box"]["tri"], dtype=np.float64) / unit
+        t.unitcell_vectors = np.tile(v, (len(xyz), 1, 1))
+    elif case.get("box") is not None:
         bx = np.array(case["box"], dtype=np.float64) / unit
         if bx.ndim == 1:
             bx = np.tile(bx, (len(xyz), 1))
@@ -62,10 +65,12 @@ def err(e):
     return {"err": type(e).__name__, "msg": str(e)[:200]}
 
 
-def d2_units(d, unit):
+def d2_units(d, unit, absolute=False):
     """float32 distances -> exact squared distance in units of unit^-2 (rounded), with the residual."""
     v = (np.asarray(d, dtype=np.float64) * unit) ** 2
     r = np.rint(v)
+    if absolute:
+        return r.astype(np.int64), float(np.max(np.abs(v - r))) if v.size else 0.0
     return r.astype(np.int64), float(np.max(np.abs(v - r) / np.maximum(1.0, r))) if v.size else 0.0
 
 
@@ -93,6 +98,7 @@ def k_contacts(case):
         q, resid = d2_units(d, case["unit"])
         out["d2"] = q.tolist()
         out["resid"] = resid
+        out["resid_abs"] = d2_units(d, case["unit"], absolute=True)[1]
     if case.get("squareform"):
         try:
             m = md.geometry.squareform(d, pairs)
@@ -208,7 +214,59 @@ def k_dipole(case):
     return {"mu": _ok(lambda: ratios(md.geometry.dipole_moments(t, q)))}
 
 
-KINDS = {"contacts": k_contacts, "squareform": k_squareform, "centres": k_centres, "rg": k_rg, "shape": k_shape,
+def _real(a):
+    a = np.asarray(a)
+    if np.iscomplexobj(a):
+        if np.max(np.abs(a.imag)) > 0:
+            raise ValueError("complex result with non-zero imaginary part")
+        a = a.real
+    return a
+
+
+def _indices(case):
+    g = case["indices"]
+    return g if isinstance(g, str) else [list(x) for x in g]
+
+
+def k_inertia(case):
+    t = build_traj(case)
+    return {"I": _ok(lambda: ratios(md.compute_inertia_tensor(t)))}
+
+
+def k_order(case):
+    t = build_traj(case)
+    out = {}
+    try:
+        d = md.compute_directors(t, indices=_indices(case))
+        out["directors"] = ratios(_real(d))
+        out["shape"] = list(np.asarray(d).shape)
+    except Exception as e:  # noqa: BLE001
+        out["directors"] = err(e)
+    out["S2"] = _ok(lambda: ratios(_real(md.compute_nematic_order(t, indices=_indices(case)))))
+    return out
+
+
+def k_rdf_t(case):
+    t = build_traj(case)
+    kw = {"periodic": case["periodic"], "self_correlation": case["self_correlation"]}
+    if case.get("r_range") is not None:
+        kw["r_range"] = [n / d for n, d in case["r_range"]]
+    if case.get("n_bins") is not None:
+        kw["n_bins"] = case["n_bins"]
+    if case.get("bin_width") is not None:
+        kw["bin_width"] = case["bin_width"][0] / case["bin_width"][1]
+    for k in ("period_length", "n_concurrent_pairs", "opt"):
+        if case.get(k) is not None:
+            kw[k] = case[k]
+    try:
+        r, g = md.compute_rdf_t(t, np.array(case["pairs"], dtype=int).reshape(-1, 2),
+                                np.array(case["times"], dtype=int).reshape(-1, 2), **kw)
+    except Exception as e:  # noqa: BLE001
+        return err(e)
+    return {"r": ratios(r), "g": ratios(g), "n": int(len(r)), "shape": list(np.asarray(g).shape)}
+
+
+KINDS = {"inertia": k_inertia, "order": k_order, "rdf_t": k_rdf_t, "contacts": k_contacts, "squareform": k_squareform, "centres": k_centres, "rg": k_rg, "shape": k_shape,
          "density": k_density, "rdf": k_rdf, "drid": k_drid, "karplus": k_karplus, "dipole": k_dipole}
 
 
